@@ -663,6 +663,9 @@ def difference_in_present_features(profile1, profile2, diff_limit=-1, profile_ra
     for i in range(*profile_range):
         if profile2[i] == 0 or profile1[i] == 0:
             continue
+        if profile2[i] == -2:
+            # in a read profile (the second argument): feature beyond the polyA/polyT tail, the read says nothing about it
+            continue
         if profile1[i] != profile2[i]:
             d += 1
         if d > diff_limit:
